@@ -34,6 +34,12 @@ static inline uint64_t verif_cttz64(uint64_t x) { uint64_t n = 0; for (int i = 0
 static inline uint32_t verif_cttz32(uint32_t x) { uint32_t n = 0; for (int i = 0; i < 32; i++) { if ((x >> i) & 1) break; n++; } return n; }
 static inline uint64_t verif_ctpop64(uint64_t x) { uint64_t n = 0; for (int i = 0; i < 64; i++) n += (x >> i) & 1; return n; }
 static inline uint32_t verif_ctpop32(uint32_t x) { uint32_t n = 0; for (int i = 0; i < 32; i++) n += (x >> i) & 1; return n; }
+/* ir2c --ptrdiff: value of (uint64_t)p - (uint64_t)q, written so that CBMC folds it for pointers into one object */
+#ifdef VERIF_CBMC
+#define verif_ptrdiff(p, q) (__CPROVER_same_object((p), (q)) ? (uint64_t)(__CPROVER_POINTER_OFFSET(p) - __CPROVER_POINTER_OFFSET(q)) : (uint64_t)(p) - (uint64_t)(q))
+#else
+#define verif_ptrdiff(p, q) ((uint64_t)(p) - (uint64_t)(q))
+#endif
 /* memory intrinsics. With a constant length the C library form is used (CBMC expands it per byte at fixed offsets);
  * with a symbolic length a byte loop bounded by --unwind is far cheaper for CBMC than its array-theory memcpy model. */
 #include <string.h>
